@@ -176,11 +176,140 @@ def dynamic_foreach_histories(ck, tier):
                     ck.oracle_fail("history-differs-after-early-inline-dynamic-call", dict(case, call=k), got[k], twin[k])
 
 
+def list_element_dynref_histories(ck, tier):
+    """Dynamic constraints referenced through elements of a list of objects (it.l[k].small()), as statements and as terms
+    under &, | and ~, with other instances of both classes created before and after.  Reference semantics computed here: the
+    term is evaluated over the returned values of exactly the elements named; unsatisfiable terms (decided over the three
+    possible truth pairs of (small, big) per element) must raise SolveFailure; elements the term does not name are free
+    (checked by frequency over the history)."""
+    import itertools
+    import random
+    import solvelib as S
+    S.install()
+    import vsc
+    from vsc.model.rand_state import RandState
+    from vsc.model.solve_failure import SolveFailure
+    rng = random.Random("C06/elem-dynref/%d" % ck.seed)
+
+    @vsc.randobj
+    class Child:
+        def __init__(self):
+            self.a = vsc.rand_uint8_t()
+            self.b = vsc.rand_uint8_t()
+
+        @vsc.dynamic_constraint
+        def big(self):
+            self.a > 200
+
+        @vsc.dynamic_constraint
+        def small(self):
+            self.a < 10
+            self.b < 10
+
+    @vsc.randobj
+    class Parent:
+        def __init__(self, n):
+            self.l = vsc.rand_list_t(Child())
+            for _ in range(n):
+                self.l.append(Child())
+
+    def gen(n, depth):
+        x = rng.random()
+        if depth == 0 or x < 0.4:
+            return ["atom", rng.randrange(n), rng.choice(["small", "big"])]
+        if x < 0.55:
+            return ["not", gen(n, depth - 1)]
+        return [rng.choice(["and", "or"]), gen(n, depth - 1), gen(n, depth - 1)]
+
+    def build(it, t):
+        if t[0] == "atom":
+            return getattr(it.l[t[1]], t[2])()
+        if t[0] == "not":
+            return ~build(it, t[1])
+        a, b = build(it, t[1]), build(it, t[2])
+        return (a & b) if t[0] == "and" else (a | b)
+
+    def ev(t, tv):
+        if t[0] == "atom":
+            return tv[(t[1], t[2])]
+        if t[0] == "not":
+            return not ev(t[1], tv)
+        return (ev(t[1], tv) and ev(t[2], tv)) if t[0] == "and" else (ev(t[1], tv) or ev(t[2], tv))
+
+    def elems(t):
+        return {t[1]} if t[0] == "atom" else set().union(*[elems(x) for x in t[1:]])
+    for h in range(60 if tier == "thorough" else 6):
+        n = rng.randint(2, 5)
+        others = [Parent(rng.randint(1, 5)) for _ in range(rng.randint(0, 2))]
+        p = Parent(n)
+        free_out = 0
+        free_n = 0
+        for c in range(rng.randint(4, 8)):
+            if rng.random() < 0.3:
+                others.append(Parent(rng.randint(1, 5)))
+                others.append(Child())
+            terms = [gen(n, rng.randint(0, 2)) for _ in range(rng.randint(1, 2))]
+            sd = rng.randrange(1 << 30)
+            p.set_randstate(RandState.mkFromSeed(sd))
+            case = {"elements": n, "terms": terms, "seed": sd, "other_instances": len(others)}
+            ck.count("eval_elem_dynref_calls")
+            named = sorted(set().union(*[elems(t) for t in terms]))
+            sat = False
+            for combo in itertools.product([(False, False), (True, False), (False, True)], repeat=len(named)):
+                tv = {}
+                for k, (sm, bg) in zip(named, combo):
+                    tv[(k, "small")], tv[(k, "big")] = sm, bg
+                if all(ev(t, tv) for t in terms):
+                    sat = True
+                    break
+            try:
+                with common.quiet():
+                    with p.randomize_with() as it:
+                        for t in terms:
+                            build(it, t)
+                raised = None
+            except SolveFailure:
+                raised = "SolveFailure"
+            except Exception as e:
+                ck.oracle_fail("elem-dynref-call-raised:%s" % type(e).__name__, case, str(e)[:200], "SolveFailure or a normal return")
+                break
+            vals = [(int(e.a), int(e.b)) for e in p.l]
+            if raised:
+                if sat:
+                    ck.oracle_fail("elem-dynref-spurious-SolveFailure", case, "SolveFailure", "the terms are satisfiable")
+                    break
+                continue
+            if not sat:
+                ck.oracle_fail("elem-dynref-unsatisfiable-returned-normally", case, vals, "SolveFailure")
+                break
+            tv = {}
+            for k in range(n):
+                tv[(k, "small")] = vals[k][0] < 10 and vals[k][1] < 10
+                tv[(k, "big")] = vals[k][0] > 200
+            if not all(ev(t, tv) for t in terms):
+                ck.oracle_fail("dynamic-constraint-not-on-the-element-it-was-referenced-through", case, vals,
+                               "each term holds over the fields of the elements it names")
+                break
+            for k in range(n):
+                if k not in named:
+                    free_n += 1
+                    free_out += not (tv[(k, "small")] or tv[(k, "big")])
+        if free_n >= 10 and free_out == 0:
+            ck.oracle_fail("dynamic-constraint-applied-to-unnamed-elements", {"elements": n}, {"unnamed_element_draws": free_n, "outside_both": 0},
+                           "elements no term names are free (P(inside small or big) ~ 0.22 per draw)")
+    ck.sample({"kind": "list-element dynamic references"})
+
+
+def extras(ck, tier):
+    dynamic_foreach_histories(ck, tier)
+    list_element_dynref_histories(ck, tier)
+
+
 if __name__ == "__main__":
     common.run_main(lambda: solvecheck.standard_main(
         "C06", ["C06"], THEOREMS, PROFILE, 300, 12000,
         ["as C01 for the solve itself", "dynamic blocks hold 1-3 one-bit expression statements (comparisons / in); references through "
-         "lists of objects (subscripts) are not generated in this revision", "instances are all created before the first call"],
+         "lists of objects (it.l[k].dyn()) are exercised by hand-written classes with generated terms, not by the scenario generator", "instances are all created before the first call"],
         RULE + "; dynamic constraints holding a foreach over a scalar list and a list of objects, named only inline, on lists that "
         "grow or are refilled between the calls (applied to the current list, no trace on plain calls, history twins)",
-        extra=dynamic_foreach_histories))
+        extra=extras))
